@@ -39,9 +39,10 @@ DEFAULT = "lian_workspace"
 
 PLACEMENTS = ["disjoint", "ws-beside-input", "ws-inside-input", "input-inside-ws", "identical"]
 NAMES = ["default-omitted", "default-explicit", "containing", "plain", "plain-base"]
-ADDRS = ["abs", "rel", "ws-link-parent", "ws-is-link", "input-is-link", "input-link-parent"]
+ADDRS = ["abs", "rel", "ws-link-parent", "ws-is-link", "ws-dotdot-link", "input-is-link", "input-link-parent"]
 KINDS = ["file", "dir", "several"]
 PRES = ["none", "files", "subdirs", "symlink-out"]
+HOSTILE_PRES = ["symlink-bak", "symlink-subdirs"]     # links named like lian's own sub-directories (families only)
 MODES = ["force", "noforce"]
 NAME_CLASS = {"default-omitted": "default", "default-explicit": "default", "containing": "containing",
               "plain": "plain", "plain-base": "plain"}
@@ -63,7 +64,7 @@ def valid(cfg):
         return False
     if cfg["name"] == "plain-base" and cfg["addr"] == "ws-is-link":
         return False
-    if cfg["name"] == "default-omitted" and cfg["addr"] == "ws-link-parent":
+    if cfg["name"] == "default-omitted" and cfg["addr"] in ("ws-link-parent", "ws-dotdot-link"):
         return False
     return True
 
@@ -154,8 +155,19 @@ def materialise(cfg, top):
     elif A == "ws-link-parent":
         os.symlink(base, f"{links}/wsparent_link")
         w_given = f"{links}/wsparent_link" + ("" if leaf is None else f"/{leaf}")
+    elif A == "ws-dotdot-link":
+        # `link/..` is the parent of the link's *target* for the kernel, the parent of the *link* for abspath()
+        os.makedirs(f"{base}/nested_real")
+        os.symlink(f"{base}/nested_real", f"{links}/deep_link")
+        w_given = f"{links}/deep_link/.." + ("" if leaf is None else f"/{leaf}")
     eff_given = w_given if DEFAULT in w_given[len(top):] else f"{w_given}/{DEFAULT}"
     ws_real = os.path.realpath(eff_given)
+    decoy = None
+    if A == "ws-dotdot-link":
+        decoy = os.path.normpath(eff_given)          # where a purely lexical reading of the same argument points
+        assert decoy != ws_real
+        _w(f"{decoy}/decoy_keep.txt", "not the workspace\n")
+        _w(f"{decoy}/decoy_dir/inner.py", "inner = 1\n")
 
     # inputs
     if P == "identical":
@@ -181,7 +193,7 @@ def materialise(cfg, top):
     elif A == "input-link-parent":
         os.symlink(os.path.dirname(main_real), f"{links}/inparent_link")
         main_given = f"{links}/inparent_link/{os.path.basename(main_real)}"
-    elif A in ("ws-is-link", "ws-link-parent"):
+    elif A in ("ws-is-link", "ws-link-parent", "ws-dotdot-link"):
         main_given = main_real
     else:
         main_given = main_lex
@@ -194,6 +206,14 @@ def materialise(cfg, top):
         os.makedirs(ws_real, exist_ok=True)
         _w(f"{ws_real}/old_note.txt", "old note\n")
         _w(f"{ws_real}/old_mod.py", "old = 1\n")
+    if pre == "symlink-bak":
+        os.symlink(outside, f"{ws_real}/bak")
+    if pre == "symlink-subdirs":
+        os.makedirs(f"{outside}/s1")
+        os.makedirs(f"{outside}/s2")
+        os.symlink(f"{outside}/s1", f"{ws_real}/src")
+        os.symlink(f"{outside}/s2", f"{ws_real}/externs")
+        os.symlink(f"{outside}/inner", f"{ws_real}/frontend")
     if pre in ("subdirs", "symlink-out"):
         _w(f"{ws_real}/src/oldproj/x.py", "oldx = 1\n")
         _w(f"{ws_real}/frontend/gir.bundle0", "junk that is not feather\n")
@@ -213,7 +233,8 @@ def materialise(cfg, top):
     if N == "default-omitted":
         cwd = os.path.dirname(w_given)
     elif A == "rel":
-        cwd = area
+        # `cd project; lian … .` when the main input is a directory outside the workspace, else its parent
+        cwd = main_real if (os.path.isdir(main_real) and not fs.inside(main_real, ws_real)) else area
     w_arg = None if N == "default-omitted" else w_given
     if A == "rel":
         inputs = [os.path.relpath(p, cwd) for p in inputs]
@@ -227,10 +248,11 @@ def materialise(cfg, top):
     # the workspace exactly as the CLI documents it, from the argument string
     w_doc = DEFAULT if w_arg is None else w_arg
     eff_doc = w_doc if DEFAULT in w_doc else os.path.join(w_doc, DEFAULT)
-    eff_abs = os.path.normpath(os.path.join(cwd or "/", eff_doc))
+    eff_abs = os.path.join(cwd or "/", eff_doc)         # resolved the way the kernel resolves it (physically)
     assert os.path.realpath(eff_abs) == ws_real, (eff_abs, ws_real)
+    link_targets = [outside, f"{root}/canary_top.txt"] if pre in ("symlink-out", "symlink-bak", "symlink-subdirs") else []
     return {"top": top, "root": root, "home": home, "cwd": cwd, "argv": argv, "eff_abs": eff_abs,
-            "ws_real": ws_real, "inputs": inputs, "lang": lang}
+            "ws_real": ws_real, "inputs": inputs, "lang": lang, "decoy": decoy, "link_targets": link_targets}
 
 
 # ----------------------------------------------------------------------------------------------------------------
@@ -303,17 +325,21 @@ def expectations(plan, cfg):
     mult = 3 if cfg["lang"] == "c-preprocess" else 1      # x -> x, x_processed, x.i  (all derived from the copy)
     return {"src_files": n * mult, "src_bytes": b * mult + (4096 if mult > 1 else 0), "src_depth": depth,
             "ext_files": mn, "ext_bytes": mb, "ext_depth": md + 1, "relation": relation, "inputs_real": inputs_real,
-            "symlinked_ws": plan["eff_abs"] != ws_real, "symlinked_input": sym_in,
+            "symlinked_ws": os.path.normpath(plan["eff_abs"]) != ws_real, "symlinked_input": sym_in,
             "conflict": any(fs.inside(r, ws_real) for r in inputs_real)}
 
 
-def subtree_stats(snap, root, top_abs):
-    """(files, bytes, max depth below top_abs) of the snapshot entries below the absolute directory top_abs."""
+def subtree_stats(snap, root, top_abs, older=None):
+    """(files, bytes, max depth below top_abs) of the snapshot entries below the absolute directory top_abs;
+    with `older`, only of the entries that are new or different from the older snapshot (= written by the run)."""
     rel = os.path.relpath(top_abs, root)
     pre = "" if rel == "." else rel + "/"
     n = b = depth = 0
-    for p, (kind, size, _, _, _) in snap.items():
+    for p, rec in snap.items():
+        kind, size = rec[0], rec[1]
         if p == "." or not p.startswith(pre):
+            continue
+        if older is not None and older.get(p) == rec:
             continue
         depth = max(depth, p[len(pre):].count("/") + 1)
         if kind != "dir":
@@ -325,16 +351,43 @@ def subtree_stats(snap, root, top_abs):
 # ----------------------------------------------------------------------------------------------------------------
 # the oracle
 
-def signature(cfg, exp, clause):
+def signature(cfg, exp, clause, zone=None):
+    """Mechanism signature: which path relation / naming feature of the configuration, which clause of the oracle
+    and — for effects outside the workspace — where the affected path lies relative to the configuration.
+    Recomputable from the stored configuration alone (never a path or a hash)."""
+    mode_q = f"[{cfg['mode']}]" if cfg["mode"] != "force" and not clause.endswith("-without-force") else ""
+    if zone == "lexical-dotdot-directory":
+        # `-w link/../name`: the relation to the inputs plays no part, lexical vs physical '..' does
+        return f"ws-arg-dotdot-through-symlink:{clause}{mode_q}"
+    if zone == "old-workspace-link-target":
+        return f"symlink-in-old-workspace:{clause}{mode_q}"
     rel = exp["relation"]
     if exp["symlinked_ws"] and rel in ("identical", "input-inside-ws"):
         rel += "+symlinked-ws"
     q = ""
-    if cfg["mode"] != "force":
-        q += f"[{cfg['mode']}]"
-    if cfg["lang"] != "python":
-        q += f"<{cfg['lang']}>"
+    if not (clause == "unbounded-copy" or clause.startswith("died-in-copy-step")):
+        # the copy clauses have one mechanism whatever the flags; elsewhere the flags select the code path
+        q += mode_q
+        if cfg["lang"] != "python":
+            q += f"<{cfg['lang']}>"
     return f"{rel}/{NAME_CLASS[cfg['name']]}-name:{clause}{q}"
+
+
+def zone_of(path, plan, exp):
+    """Where a path outside the workspace lies, in terms of the configuration."""
+    if plan.get("decoy") and fs.inside(path, plan["decoy"]):
+        return "lexical-dotdot-directory"
+    if any(fs.inside(path, t) for t in plan.get("link_targets", [])):
+        return "old-workspace-link-target"
+    if any(fs.inside(path, r) for r in exp["inputs_real"]):
+        return "input"
+    if any(fs.inside(path, os.path.dirname(r)) for r in exp["inputs_real"]):
+        return "beside-input"
+    if fs.inside(path, os.path.dirname(plan["ws_real"])):
+        return "beside-workspace"
+    if fs.inside(path, plan["root"]):
+        return "elsewhere-in-scratch-root"
+    return "outside-scratch-root"
 
 
 def allowed_zone(path, plan):
@@ -354,9 +407,10 @@ def judge(cfg, plan, exp, before, after, events, outcome, channel="audit"):
     def bump(k, n=1):
         cnt[k] = cnt.get(k, 0) + n
 
-    def fail(clause, detail):
-        if not any(c == clause for c, _ in fails):
-            fails.append((clause, detail))
+    def fail(clause, detail, path=None):
+        zone = zone_of(path, plan, exp) if path else None
+        if not any(c == clause and z == zone for c, _, z in fails):
+            fails.append((clause, detail + (f" [{zone}]" if zone else ""), zone))
 
     def absolute(p):
         return root if p == "." else f"{root}/{p}"
@@ -380,7 +434,7 @@ def judge(cfg, plan, exp, before, after, events, outcome, channel="audit"):
                 fail("created-without-force", f"directory {short(ap)} appeared without --force")
         else:
             bump("snapshot: entries created outside the workspace")
-            fail("created-outside", f"{after[p][0]} {short(ap)} was created outside the workspace {short(ws)}")
+            fail("created-outside", f"{after[p][0]} {short(ap)} was created outside the workspace {short(ws)}", ap)
     for p in deleted:
         ap = absolute(p)
         if fs.inside(ap, ws) and not strict:
@@ -391,7 +445,7 @@ def judge(cfg, plan, exp, before, after, events, outcome, channel="audit"):
             fail("deleted-without-force", f"{short(ap)} was deleted although --force was not given")
         else:
             bump("snapshot: entries deleted outside the workspace")
-            fail("deleted-outside", f"{before[p][0]} {short(ap)} outside the workspace {short(ws)} was deleted")
+            fail("deleted-outside", f"{before[p][0]} {short(ap)} outside the workspace {short(ws)} was deleted", ap)
     for p, what in changed:
         ap = absolute(p)
         if fs.inside(ap, ws) and not strict:
@@ -400,7 +454,7 @@ def judge(cfg, plan, exp, before, after, events, outcome, channel="audit"):
             fail("modified-without-force", f"{short(ap)} changed ({what}) although --force was not given")
         else:
             bump("snapshot: entries modified outside the workspace")
-            fail("modified-outside", f"{short(ap)} outside the workspace changed ({what})")
+            fail("modified-outside", f"{short(ap)} outside the workspace changed ({what})", ap)
     if exp["conflict"]:
         gone = [r for r in exp["inputs_real"] if fs.inside(r, ws) and not os.path.lexists(r)]
         bump("conflict: configurations with an input inside the workspace")
@@ -425,19 +479,22 @@ def judge(cfg, plan, exp, before, after, events, outcome, channel="audit"):
         z = allowed_zone(path, plan)
         if z:
             bump(f"{channel}: allow-listed operations ({z})")
+            tag = f"{ev} {op} " + (os.path.relpath(path, plan["home"]) if z == "scratch-HOME" else path)
+            allow = cnt.setdefault("_allow_listed", {})
+            allow[tag] = allow.get(tag, 0) + 1
             continue
         bump(f"{channel}: operations outside the workspace")
-        fail(f"mutating-op-outside[{op}]", f"{ev} acted on {short(path)}, outside the workspace {short(ws)}")
+        fail("mutating-op-outside", f"{ev} ({op}) acted on {short(path)}, outside the workspace {short(ws)}", path)
     # (d)
-    sn, sb, sd = subtree_stats(after, root, f"{ws}/src")
-    en, eb, ed = subtree_stats(after, root, f"{ws}/externs")
-    wn, wb, wd = subtree_stats(after, root, ws)
-    if cfg["mode"] in ("force", "force-inc") and os.path.isdir(ws):
+    sn, sb, sd = subtree_stats(after, root, f"{ws}/src", before)
+    en, eb, ed = subtree_stats(after, root, f"{ws}/externs", before)
+    wn, wb, wd = subtree_stats(after, root, ws, before)
+    if cfg["mode"] != "noforce" and os.path.isdir(ws):
         bump("bounded-copy: workspaces measured")
-        bump("bounded-copy: files found under src/", sn)
-        detail = (f"src/ holds {sn} files / {sb} bytes / depth {sd}, the inputs allow {exp['src_files']} / "
-                  f"{exp['src_bytes']} / {exp['src_depth']}; externs/ holds {en} files / {eb} bytes, the mock "
-                  f"directory allows {exp['ext_files']} / {exp['ext_bytes']}; workspace depth {wd}")
+        bump("bounded-copy: files written under src/", sn)
+        detail = (f"the run wrote {sn} files / {sb} bytes / depth {sd} under src/, the inputs allow {exp['src_files']} / "
+                  f"{exp['src_bytes']} / {exp['src_depth']}; it wrote {en} files / {eb} bytes under externs/, the mock "
+                  f"directory allows {exp['ext_files']} / {exp['ext_bytes']}; depth of what was written: {wd}")
         if (sn > exp["src_files"] or sb > exp["src_bytes"] or en > exp["ext_files"] or eb > exp["ext_bytes"]
                 or sd > exp["src_depth"] + 1 or ed > exp["ext_depth"] + 1
                 or wn > sn + en + ARTEFACT_FILES_MAX or wd > max(exp["src_depth"], exp["ext_depth"]) + DEPTH_SLACK):
@@ -496,10 +553,26 @@ def neutralise_env(home):
     tempfile.tempdir = None
 
 
+PAD_TO = 2400
+
+
+def make_top(tag):
+    """A fresh directory for one configuration.  It sits at the end of a long chain of directories so that its
+    path is ~2400 characters long: a copy step that recurses into its own output is stopped by PATH_MAX (4096) after
+    a few dozen levels instead of several hundred, which keeps such a run cheap (its cost grows with depth^2).
+    Returns (directory to remove afterwards, top)."""
+    holder = os.path.join(os.path.realpath(common.scratch()), "c18", tag)
+    top = holder
+    while len(top) < PAD_TO - 200:
+        top = os.path.join(top, "p" * 199)
+    top = os.path.join(top, "t")
+    os.makedirs(top)
+    return holder, top
+
+
 def run_config(item):
     idx, cfg = item
-    top = os.path.join(common.scratch(), "c18", f"cfg{idx}_{os.getpid()}")
-    os.makedirs(top)
+    holder, top = make_top(f"cfg{idx}_{os.getpid()}")
     try:
         plan = materialise(cfg, top)
         exp = expectations(plan, cfg)
@@ -534,7 +607,7 @@ def run_config(item):
                 "symlinked_ws": exp["symlinked_ws"], "symlinked_input": exp["symlinked_input"]}
     finally:
         os.chdir("/")
-        shutil.rmtree(top, ignore_errors=True)
+        shutil.rmtree(holder, ignore_errors=True)
 
 
 # ----------------------------------------------------------------------------------------------------------------
@@ -542,8 +615,7 @@ def run_config(item):
 
 def run_cli_config(item):
     idx, cfg = item
-    top = os.path.join(common.scratch(), "c18", f"cli{idx}_{os.getpid()}")
-    os.makedirs(top)
+    holder, top = make_top(f"cli{idx}_{os.getpid()}")
     try:
         plan = materialise(cfg, top)
         exp = expectations(plan, cfg)
@@ -553,7 +625,10 @@ def run_cli_config(item):
         os.makedirs(f"{home}/tmp", exist_ok=True)
         env.update({"HOME": home, "MPLCONFIGDIR": f"{home}/mpl", "XDG_CACHE_HOME": f"{home}/cache",
                     "XDG_CONFIG_HOME": f"{home}/config", "TMPDIR": f"{home}/tmp", "PYTHONDONTWRITEBYTECODE": "1",
-                    "PYTHONWARNINGS": "ignore"})
+                    "PYTHONWARNINGS": "ignore",
+                    # the venv has /repo/src on its path; the tree under test ($LIAN_REPO) must win
+                    "PYTHONPATH": os.path.join(common.REPO, "src") + (
+                        os.pathsep + env["PYTHONPATH"] if env.get("PYTHONPATH") else "")})
         log_path = os.path.join(top, "strace.log")
         main_py = os.path.join(common.REPO, "src", "lian", "main.py")
         cmd = fs.STRACE_ARGS + ["-o", log_path, sys.executable, main_py] + plan["argv"][1:]
@@ -590,17 +665,17 @@ def run_cli_config(item):
                 "outcome": outcome[0], "n_events": len(events), "unclassified": parsed["unclassified"],
                 "wall": round(wall, 1), "effect": [sorted(created), sorted(deleted), sorted(p for p, _ in changed)],
                 "argv": [a.replace(plan["top"], "<top>") for a in plan["argv"]],
-                "workspace": plan["ws_real"].replace(plan["top"], "<top>"), "tail": out[-400:]}
+                "workspace": plan["ws_real"].replace(plan["top"], "<top>"),
+                "tail": out[-1500:].replace(plan["top"], "<top>")[-400:]}
     finally:
-        shutil.rmtree(top, ignore_errors=True)
+        shutil.rmtree(holder, ignore_errors=True)
 
 
 def run_effect_only(item):
     """The same configuration in a forked child, returning only which paths were created/deleted/changed
     (to compare the zygote-forked run with the true CLI run)."""
     idx, cfg = item
-    top = os.path.join(common.scratch(), "c18", f"eff{idx}_{os.getpid()}")
-    os.makedirs(top)
+    holder, top = make_top(f"eff{idx}_{os.getpid()}")
     try:
         plan = materialise(cfg, top)
         neutralise_env(plan["home"])
@@ -619,7 +694,7 @@ def run_effect_only(item):
         return [sorted(created), sorted(deleted), sorted(p for p, _ in changed)]
     finally:
         os.chdir("/")
-        shutil.rmtree(top, ignore_errors=True)
+        shutil.rmtree(holder, ignore_errors=True)
 
 
 # ----------------------------------------------------------------------------------------------------------------
@@ -653,11 +728,16 @@ def family_configs(thorough):
                     c = make_cfg(P, N, A, K, pre, mode, lang)
                     if valid(c):
                         out.append(c)
+    # an old workspace whose bak/ src/ externs/ frontend/ are links to directories outside
+    for N in ("default-explicit", "plain"):
+        for pre in HOSTILE_PRES:
+            for mode in ("inc", "force", "force-inc", "noforce"):
+                out.append(make_cfg("disjoint", N, "abs", "dir", pre, mode))
     return out
 
 
 def quick_configs(rng):
-    """A covering sample: every valid (placement, name, addressing) triple once with --force and every
+    """A covering sample: every valid (placement, name, addressing) triple twice with --force and every
     (placement, pre-existing content, input kind) triple once without, the remaining dimensions rotated by seed."""
     out, seen = [], set()
 
@@ -672,9 +752,12 @@ def quick_configs(rng):
         ps = PRES[:]
         rng.shuffle(ks)
         rng.shuffle(ps)
-        for K in ks:
-            if add(make_cfg(P, N, A, K, ps[0], "force")):
-                break
+        got = 0
+        for K, pre in zip(ks + ks, ps + ps):             # two different (input kind, previous content) picks
+            if add(make_cfg(P, N, A, K, pre, "force")):
+                got += 1
+                if got == 2:
+                    break
     for P, pre, K in itertools.product(PLACEMENTS, PRES, KINDS):
         ns, ads = NAMES[:], ADDRS[:]
         rng.shuffle(ns)
@@ -690,20 +773,40 @@ def quick_configs(rng):
     return out
 
 
-CLI_CONFIGS = [
-    make_cfg("disjoint", "plain", "abs", "dir", "symlink-out", "force"),
-    make_cfg("ws-beside-input", "default-omitted", "rel", "several", "subdirs", "force"),
-    make_cfg("ws-inside-input", "default-omitted", "abs", "dir", "files", "force"),
-    make_cfg("ws-inside-input", "containing", "input-link-parent", "dir", "symlink-out", "force"),
-    make_cfg("input-inside-ws", "containing", "ws-is-link", "dir", "symlink-out", "force"),
-    make_cfg("identical", "default-explicit", "ws-is-link", "dir", "files", "force"),
-    make_cfg("identical", "plain", "abs", "several", "subdirs", "force"),
-    make_cfg("disjoint", "default-explicit", "ws-link-parent", "file", "none", "force"),
-    make_cfg("disjoint", "containing", "abs", "dir", "symlink-out", "noforce"),
-    make_cfg("ws-beside-input", "plain", "abs", "dir", "subdirs", "force", "c-preprocess"),
-    make_cfg("disjoint", "plain-base", "input-is-link", "dir", "files", "force"),
-    make_cfg("ws-inside-input", "plain", "rel", "several", "none", "force-inc"),
-]
+def cli_configs():
+    """True CLI runs under strace: every (placement, name) pair once with --force, the other dimensions rotated,
+    plus the flag / language families and the witnesses of the defects found so far."""
+    out, seen = [], set()
+
+    def add(c):
+        if valid(c) and cfg_key(c) not in seen:
+            seen.add(cfg_key(c))
+            out.append(c)
+            return True
+        return False
+    i = 0
+    for P in PLACEMENTS:
+        for N in NAMES:
+            for shift in range(len(ADDRS)):
+                A = ADDRS[(i + shift) % len(ADDRS)]
+                if add(make_cfg(P, N, A, KINDS[(i + shift) % 3], PRES[i % 4], "force")):
+                    break
+            i += 1
+    for c in (
+        make_cfg("disjoint", "containing", "abs", "dir", "symlink-out", "noforce"),
+        make_cfg("ws-beside-input", "plain", "abs", "dir", "subdirs", "force", "c-preprocess"),
+        make_cfg("ws-inside-input", "default-explicit", "rel", "dir", "files", "force", "c-preprocess"),
+        make_cfg("ws-inside-input", "plain", "rel", "several", "none", "force-inc"),
+        make_cfg("disjoint", "default-explicit", "abs", "dir", "subdirs", "inc"),
+        make_cfg("disjoint", "plain", "abs", "dir", "symlink-bak", "inc"),
+        make_cfg("disjoint", "plain", "abs", "dir", "symlink-subdirs", "inc"),
+        make_cfg("ws-inside-input", "default-omitted", "rel", "dir", "none", "force"),      # `cd proj; lian lang -f -l python .`
+        make_cfg("identical", "containing", "ws-is-link", "dir", "files", "force"),
+        make_cfg("disjoint", "containing", "ws-dotdot-link", "dir", "symlink-out", "force"),
+        make_cfg("ws-beside-input", "default-explicit", "abs", "dir", "symlink-out", "force", "python-strict"),
+    ):
+        add(c)
+    return out
 
 
 # ----------------------------------------------------------------------------------------------------------------
@@ -711,6 +814,12 @@ CLI_CONFIGS = [
 def absorb(chk, cfg, v, samples_by_rel, kind="config"):
     chk.evaluated(1)
     for k, n in v["counters"].items():
+        if k == "_allow_listed":
+            seen = chk.extra.setdefault("allow_listed_operations_seen", {})
+            for tag, m in n.items():
+                if tag in seen or len(seen) < 40:
+                    seen[tag] = seen.get(tag, 0) + m
+            continue
         chk.count(k, n)
     if v["n_events"] > 0 or (cfg["mode"] == "noforce" and cfg["pre"] != "none"):
         chk.nontrivial_case(cfg_key(cfg))
@@ -719,9 +828,9 @@ def absorb(chk, cfg, v, samples_by_rel, kind="config"):
         samples_by_rel[v["relation"]] = True
         chk.sample({"configuration": cfg, "argv": v["argv"], "cwd": v.get("cwd"), "workspace": v["workspace"],
                     "relation": v["relation"], "outcome": v["outcome"], "mutating_events": v["n_events"]})
-    for clause, detail in v["fails"]:
+    for clause, detail, zone in v["fails"]:
         exp_like = {"relation": v["relation"], "symlinked_ws": v.get("symlinked_ws", False)}
-        chk.fail(signature(cfg, exp_like, clause), detail, {"kind": kind, "config": cfg})
+        chk.fail(signature(cfg, exp_like, clause, zone), detail, {"kind": kind, "config": cfg})
 
 
 def run_batch(chk, configs, tag, timeout):
@@ -806,10 +915,11 @@ def main():
     run_batch(chk, core, "c18", timeout=240)
     run_batch(chk, fam, "c18f", timeout=240)
     if thorough:
-        run_cli_batch(chk, CLI_CONFIGS)
-        chk.require("strace: true CLI runs", 8)
-        chk.require("strace: mutating operations recorded", 400)
-        chk.require("zygote honesty: CLI run and forked run compared", 8)
+        run_cli_batch(chk, cli_configs())
+        chk.require("strace: true CLI runs", 25)
+        chk.require("strace: mutating operations recorded", 1500)
+        chk.require("strace: operations inside the workspace", 1500)
+        chk.require("zygote honesty: CLI run and forked run compared", 25)
     chk.require("audit: mutating operations recorded", 5000)
     chk.require("audit: operations inside the workspace", 5000)
     chk.require("snapshot: entries created inside the workspace", 3000)
